@@ -153,7 +153,15 @@ impl Dictionary {
     pub fn expect(&self, typ: &'static str, key: &str, value: &str, required: bool) -> Result<()> {
         match self.dict.get(key) {
             Some(ty) => {
-                let ty = ty.as_name()?;
+                let ty = match ty.as_name() {
+                    Ok(name) => name,
+                    // not a name at all (e.g. a reference): report it as a mismatch of this entry
+                    Err(_) => return Err(PdfError::KeyValueMismatch {
+                        key: key.into(),
+                        value: value.into(),
+                        found: ty.get_debug_name().into()
+                    })
+                };
                 if ty != value {
                     Err(PdfError::KeyValueMismatch {
                         key: key.into(),
